@@ -726,10 +726,10 @@ impl Packet {
             }
         }
 
-        let mut buf_length = 4 + self.payload.len() + self.token.len();
+        let mut buf_length = 4 + self.token.len();
         if self.header.code != MessageClass::Empty && !self.payload.is_empty()
         {
-            buf_length += 1;
+            buf_length += 1 + self.payload.len();
         }
         buf_length += options_bytes.len();
 
